@@ -68,8 +68,9 @@ def add_login(registry: kopf.OperatorRegistry, world: World, env: Env | None = N
 class Outcome:
     """One step of a handler's outcome script."""
     def __init__(self, kind: str, delay: float | None = None, result: Any = None, sleep: float = 0.0,
-                 patch: dict | None = None) -> None:
+                 patch: dict | None = None, edit: dict | None = None) -> None:
         self.kind, self.delay, self.result, self.sleep, self.patch = kind, delay, result, sleep, patch
+        self.edit = edit   # a foreign write to the same object made while the handler runs
 
     def __repr__(self) -> str:
         extras = ''.join(f',{k}={v!r}' for k, v in (('delay', self.delay), ('sleep', self.sleep)) if v)
@@ -149,6 +150,11 @@ def scripted(env: Env, hid: str, script: list[Outcome], *, cursor: str | None = 
         try:
             if out.sleep:
                 await asyncio.sleep(out.sleep)
+            if out.edit and body is not None:
+                from kv.world import KEX
+                kinds = [k for k in env.world.kinds.values() if k.kind == body.get('kind')] or [KEX]
+                env.world.merge(kinds[0], body['metadata'].get('namespace'), body['metadata']['name'], out.edit,
+                                actor='foreign')
             if out.patch and 'patch' in kw:
                 _deep_update(kw['patch'], out.patch)
             if out.kind == 'ok':
